@@ -22,7 +22,7 @@ from vq.core import exc_cls
 
 from props import arc_common as ac
 
-KNOWN_SIG = "get_routes/no-customers/zero-vector"
+EMPTY_SIG = "get_routes/no-customers/zero-vector"
 
 
 # ---------------------------------------------------------------- observation of the implementation
@@ -135,8 +135,6 @@ def oracle_decode(inst, obs, x, res):
     snap, grid, vm = obs["snap"], list(inst["grid"]), obs["vars"]
     sel = [v for v, xv in zip(vm, x) if xv]
     if res[0] == "err":
-        if len(snap[1]) == 1 and not sel and res[1] == "TypeError":
-            return "known"
         return f"get_routes raised {res[1]} on the feasible selection {sel}"
     return ac.check_decoded(snap, grid, sel, res[1])
 
@@ -335,7 +333,7 @@ def fails(inst, nmax):
     if inst.get("pos_cc"):
         for x in feas or []:
             r = oracle_decode(inst, obs, x, ac.run_decode(obs["p"], x))
-            if r and r != "known":
+            if r:
                 return True
     return False
 
@@ -421,14 +419,15 @@ def run(ctx):
                     dist["merged_routes_decoded"] += 1
                 if inst.get("pos_cc"):
                     r = oracle_decode(inst, obs, x, res)
-                    if r == "known":
-                        ctx.cov["noted"] = ("get_routes raises TypeError (np.lexsort of no keys) on the all-zero vector of an "
-                                            "instance without customers, where that vector is feasible")
-                        if any(f.get("signature") == KNOWN_SIG and f.get("status") == "open" and f.get("property") == ctx.pid
-                               for f in ctx.findings):
-                            ctx.violation(KNOWN_SIG, ctx.cov["noted"], {"instance": ac.describe(inst), "x": x}, True)
+                    if r and len(obs["snap"][1]) == 1 and not any(x):
+                        # the repaired defect of /repo 101dd02 (known_findings.json: fixed): empty selection, no customer
+                        dist["empty_selection_failures"] = dist.get("empty_selection_failures", 0) + 1
+                        ctx.violation(EMPTY_SIG, r + " (instance without customers: the empty route set is the decoding)",
+                                      {"instance": ac.describe(inst), "x": x, "python": "props.c05.replay"}, True)
                     elif r:
                         report("oracle/arc/decode", r, inst, x, lambda c: fails(c, 12))
+                    if not any(x):
+                        dist["empty_feasible_selection_decoded"] = dist.get("empty_feasible_selection_decoded", 0) + 1
         # infeasible / arbitrary vectors: assertion vs Err
         extra = []
         if n > 0:
